@@ -147,8 +147,26 @@ def relevant(hyps, goals):
     return [h for (h, _), k in zip(hv, keep) if k]
 
 
+def _small(t, limit=600):
+    n, seen, stack = 0, set(), [t]
+    while stack:
+        x = stack.pop()
+        if x.get_id() in seen:
+            continue
+        seen.add(x.get_id())
+        n += 1
+        if n > limit:
+            return False
+        if z3.is_app(x):
+            stack.extend(x.children())
+    return True
+
+
 def poly_zero(t):
-    """is the integer/real term t identically zero as a polynomial (syntactic normal form)?"""
+    """is the integer/real term t identically zero as a polynomial (syntactic normal form)?  Only attempted on small
+    terms: the sum-of-monomials expansion is exponential in general."""
+    if not _small(t):
+        return False
     try:
         r = z3.simplify(t, som=True)
     except z3.Z3Exception:
@@ -157,7 +175,10 @@ def poly_zero(t):
 
 
 UMUL = z3.Function("umul", z3.RealSort(), z3.RealSort(), z3.RealSort())
+UINV = z3.Function("uinv", z3.RealSort(), z3.RealSort())
+_INVMARK = z3.Function("uinv", z3.RealSort(), z3.RealSort())        # a / b is abstracted as umul(a, uinv(b))
 _abs_cache = {}
+_ABS_ALT = [False]        # alternative tie-breaking order of umul factors (second attempt)
 
 
 def _split_const(t):
@@ -179,11 +200,148 @@ def _split_const(t):
     return None, t
 
 
+_leaf_cache = {}
+_fp_cache = {}
+
+
+def _hashf(key, lo=0.5, hi=1.5):
+    import hashlib
+    h = int(hashlib.md5(repr(key).encode()).hexdigest()[:12], 16)
+    return lo + (hi - lo) * (h % 1000003) / 1000003.0
+
+
+def fingerprint(t):
+    """numeric value of a term under a fixed pseudo-random interpretation of its symbols (ints, reals, uninterpreted
+    functions): semantically equal terms get (numerically) equal fingerprints whatever their syntactic shape.
+    Used only to ORDER the factors of abstracted products canonically; never to decide anything."""
+    k = t.get_id()
+    if k in _fp_cache:
+        return _fp_cache[k][1]
+    import math as _m
+    try:
+        v = _fp(t)
+    except (ZeroDivisionError, OverflowError, ValueError):
+        v = _hashf(("err", str(t)[:200]))
+    if len(_fp_cache) > 300000:
+        _fp_cache.clear()
+    _fp_cache[k] = (t, v)
+    return v
+
+
+def _fp(t):
+    import math as _m
+    if z3.is_int_value(t):
+        return t.as_long()
+    if z3.is_rational_value(t):
+        return t.numerator_as_long() / t.denominator_as_long()
+    if z3.is_true(t):
+        return True
+    if z3.is_false(t):
+        return False
+    if not z3.is_app(t):
+        return _hashf(str(t))
+    kind = t.decl().kind()
+    kids = t.children()
+    if t.num_args() == 0:
+        if t.sort() == z3.IntSort():
+            return 3 + int(_hashf(("int", t.decl().name()), 0, 37))
+        if t.sort() == z3.BoolSort():
+            return _hashf(("bool", t.decl().name())) > 1.0
+        return _hashf(("real", t.decl().name()))
+    f = fingerprint
+    if kind == z3.Z3_OP_ADD:
+        return sum(f(c) for c in kids)
+    if kind == z3.Z3_OP_MUL:
+        r = 1
+        for c in kids:
+            r = r * f(c)
+        return r
+    if kind == z3.Z3_OP_SUB:
+        r = f(kids[0])
+        for c in kids[1:]:
+            r = r - f(c)
+        return r
+    if kind == z3.Z3_OP_UMINUS:
+        return -f(kids[0])
+    if kind == z3.Z3_OP_DIV:
+        return f(kids[0]) / f(kids[1])
+    if kind == z3.Z3_OP_IDIV:
+        return f(kids[0]) // f(kids[1])
+    if kind in (z3.Z3_OP_MOD, z3.Z3_OP_REM):
+        return f(kids[0]) % f(kids[1])
+    if kind in (z3.Z3_OP_TO_REAL, z3.Z3_OP_TO_INT):
+        v = f(kids[0])
+        return _m.floor(v) if kind == z3.Z3_OP_TO_INT else v
+    if kind == z3.Z3_OP_ITE:
+        return f(kids[1]) if f(kids[0]) else f(kids[2])
+    if kind == z3.Z3_OP_AND:
+        return all(f(c) for c in kids)
+    if kind == z3.Z3_OP_OR:
+        return any(f(c) for c in kids)
+    if kind == z3.Z3_OP_NOT:
+        return not f(kids[0])
+    if kind == z3.Z3_OP_LE:
+        return f(kids[0]) <= f(kids[1])
+    if kind == z3.Z3_OP_GE:
+        return f(kids[0]) >= f(kids[1])
+    if kind == z3.Z3_OP_LT:
+        return f(kids[0]) < f(kids[1])
+    if kind == z3.Z3_OP_GT:
+        return f(kids[0]) > f(kids[1])
+    if kind == z3.Z3_OP_EQ:
+        a, b = f(kids[0]), f(kids[1])
+        return a == b if isinstance(a, (bool, int)) and isinstance(b, (bool, int)) else abs(a - b) < 1e-12
+    name = t.decl().name()
+    if name == "sqrt":
+        return _m.sqrt(abs(f(kids[0])))
+    if name.startswith("act_"):
+        v = f(kids[0])
+        return 1.3 * _m.tanh(v) + 0.1 * v + 0.05 * v * v
+    if name == "umul":
+        return f(kids[0]) * f(kids[1])
+    if name == "uinv":
+        return 1.0 / f(kids[0])
+    args = tuple(round(f(c), 9) if not isinstance(f(c), bool) else f(c) for c in kids)
+    return _hashf((name, args))
+
+
+def _leaf_sig(t):
+    """multiset of the uninterpreted leaf applications below t (as sorted ids): invariant under arithmetic re-arrangement"""
+    k = t.get_id()
+    if k in _leaf_cache:
+        return _leaf_cache[k][1]
+    ids, seen, stack = [], set(), [t]
+    while stack:
+        x = stack.pop()
+        if z3.is_app(x):
+            kind = x.decl().kind()
+            if kind == z3.Z3_OP_UNINTERPRETED and x.decl().name() not in ("umul", "uinv", "sqrt") and not x.decl().name().startswith("act_"):
+                ids.append(x.get_id())
+                continue
+            stack.extend(x.children())
+    sig = tuple(sorted(set(ids)))
+    if len(_leaf_cache) > 200000:
+        _leaf_cache.clear()
+    _leaf_cache[k] = (t, sig)
+    return sig
+
+
+def _signed_sum(a):
+    """a factor with a negative fingerprint is replaced by its negation (the sign goes into the constant), so that
+    -(x+y) and (-x)+(-y) are abstracted alike"""
+    if not (z3.is_add(a) and a.sort() == z3.RealSort()):
+        return 1, a
+    v = fingerprint(a)
+    if isinstance(v, (int, float)) and v < 0:
+        return -1, z3.simplify(-a)
+    return 1, a
+
+
 def abstract_mul(t):
     """replace products of two non-constant REAL terms by the uninterpreted, commutative, constant-homogeneous
     function umul.  If a formula is valid with umul uninterpreted it is valid for real multiplication
     (real multiplication is one interpretation); a counter-model of the abstraction proves nothing."""
-    k = t.get_id()
+    k = (t.get_id(), _ABS_ALT[0])
     if k in _abs_cache:
         return _abs_cache[k][1]
     if not z3.is_app(t) or t.num_args() == 0:
@@ -200,21 +358,38 @@ def abstract_mul(t):
                     const = c if const is None else const * c
                 elif z3.is_mul(c) and c.sort() == z3.RealSort():
                     stack.extend(c.children())
+                elif z3.is_app(c) and c.decl().kind() == z3.Z3_OP_DIV and not (z3.is_rational_value(c.arg(1)) or z3.is_int_value(c.arg(1))):
+                    stack.append(c.arg(0))
+                    raw.append(("inv", c.arg(1)))
                 elif z3.is_app(c) and c.decl().kind() == z3.Z3_OP_UMINUS:
                     const = z3.RealVal(-1) if const is None else const * z3.RealVal(-1)
                     stack.append(c.arg(0))
                 else:
                     raw.append(c)
-            facs = [abstract_mul(c) for c in raw]
+            facs = []
+            for c in raw:
+                if isinstance(c, tuple):
+                    sg, a = _signed_sum(abstract_mul(c[1]))
+                    facs.append(UINV(a))
+                else:
+                    sg, a = _signed_sum(abstract_mul(c))
+                    facs.append(a)
+                if sg == -1:
+                    const = z3.RealVal(-1) if const is None else const * z3.RealVal(-1)
             if len(facs) <= 1:
                 r = facs[0] if facs else z3.RealVal(1)
             else:
-                facs.sort(key=lambda x: x.get_id())
+                # order the factors by head symbol first (stable across syntactically different but equal arguments),
+                # then by term id: umul is meant to be commutative / associative
+                sgn_ = -1 if _ABS_ALT[0] else 1
+                facs.sort(key=lambda x: (round(float(fingerprint(x)), 8), sgn_ * x.get_id()))
                 r = facs[0]
                 for f in facs[1:]:
                     r = UMUL(r, f)
             if const is not None:
                 r = z3.simplify(const) * r
+        elif t.decl().kind() == z3.Z3_OP_DIV and t.sort() == z3.RealSort() and not (z3.is_rational_value(t.arg(1)) or z3.is_int_value(t.arg(1))):
+            r = abstract_mul(t.arg(0) * (z3.RealVal(1) * _INVMARK(t.arg(1))))
         else:
             kids = [abstract_mul(c) for c in t.children()]
             try:
@@ -240,6 +415,8 @@ def _has_nl_real_mul(t, seen=None):
             if z3.is_mul(x) and x.sort() == z3.RealSort():
                 if sum(1 for c in x.children() if not (z3.is_rational_value(c) or z3.is_int_value(c))) >= 2:
                     return True
+            if x.decl().kind() == z3.Z3_OP_DIV and x.sort() == z3.RealSort() and not (z3.is_rational_value(x.arg(1)) or z3.is_int_value(x.arg(1))):
+                return True
             stack.extend(x.children())
     return False
 
@@ -380,21 +557,23 @@ def prove_by_cases(goal, extra=(), max_leaves=600):
 
 
 def prove_goal(goal, extra=()):
-    """strategy: ite-heavy goals go to case analysis first; others get a cheap direct attempt, then cases, then full budget"""
+    """strategy: (1) the multiplication-abstracted query with the full budget (cheap, sound when it says valid);
+    (2) case analysis on ite conditions; (3) the real query (also the one that yields counter-models)"""
     if isinstance(goal, bool):
         return ("proved", None) if goal else ("refuted", None)
+    goal = z3.simplify(goal)
+    if z3.is_true(goal):
+        return "proved", None
     natoms = len(_cond_atoms(goal))
-    if natoms >= 6:
+    if natoms < 6:
+        st, m = refute_or_prove(goal, extra, rlimit=RLIMIT // 4 if natoms else None)
+        if st != "unknown":
+            return st, m
+    if natoms:
         st, m = prove_by_cases(goal, extra)
-        if st == "unknown":
-            st, m = refute_or_prove(goal, extra)
-        return st, m
-    st, m = refute_or_prove(goal, extra, rlimit=RLIMIT // 20)
-    if st == "unknown" and natoms:
-        st, m = prove_by_cases(goal, extra)
-    if st == "unknown":
-        st, m = refute_or_prove(goal, extra)
-    return st, m
+        if st != "unknown":
+            return st, m
+    return refute_or_prove(goal, extra)
 
 
 def add_hint(f):
@@ -423,9 +602,14 @@ def refute_or_prove(e, extra=(), rlimit=None):
     hy = relevant(CTX.all_hyps() + list(extra), [goal])
     if _has_nl_real_mul(e):
         # first try with real multiplication abstracted to an uninterpreted commutative function: 'unsat' is sound
-        r, _ = check_sat([abstract_mul(h) for h in hy] + [abstract_mul(goal)], rlimit)
-        if r == "unsat":
-            return "proved", None
+        for alt in (False, True):
+            _ABS_ALT[0] = alt
+            try:
+                r, _ = check_sat([abstract_mul(h) for h in hy] + [abstract_mul(goal)])
+            finally:
+                _ABS_ALT[0] = False
+            if r == "unsat":
+                return "proved", None
     r, m = check_sat(hy + [goal], rlimit)
     if r == "unsat":
         return "proved", None
